@@ -19,7 +19,8 @@ EXTENDS Integers, Sequences, FiniteSets, TLC, Json
 
 CONSTANTS Fams,        \* subset of {"csvc","nusvc","oneclass","esvr","nusvr","f32"}
           MinSmall, MaxSmall,
-          Seeds, MedSizes
+          Seeds, MedSizes,
+          Lite         \* TRUE: reduced parameter grids for the small families (quick tier)
 
 VARIABLE case
 
@@ -52,17 +53,27 @@ BothLabels(s) == \E i, j \in DOMAIN s : LY(s[i]) # LY(s[j])
 Npos(y) == Count(y, 1)
 Nneg(y) == Count(y, 0)
 
+W1 == << <<1, 10>>, <<1, 10>> >>
+W2 == << <<1, 1>>, <<1, 1>> >>
+W3 == << <<10, 1>>, <<1, 1>> >>
+W4 == << <<1, 1>>, <<10, 1>> >>
+\* <<kernel, <<C+, C->> >>
+CsvcConfigs ==
+  IF Lite THEN {<<"lin", W2>>, <<"lin", W3>>, <<"poly2", W1>>, <<"poly2", W4>>, <<"rbf2", W2>>, <<"rbf2", W3>>}
+  ELSE {<<k, w>> : k \in {"lin", "poly2", "rbf2"}, w \in {W1, W2, W3, W4}}
 CsvcSmall ==
-  {Mk("csvc", [i \in DOMAIN s |-> LX(s[i])], [i \in DOMAIN s |-> LY(s[i])], 1, kern, cw[1], cw[2], One, One, One, shr, "f64", ~shr) :
+  {Mk("csvc", [i \in DOMAIN s |-> LX(s[i])], [i \in DOMAIN s |-> LY(s[i])], 1, kc[1], kc[2][1], kc[2][2], One, One, One, shr, "f64", ~shr) :
      s \in {t \in SmallLabelled : BothLabels(t)},
-     kern \in {"lin", "poly2", "rbf2"},
-     cw \in {<< <<1, 10>>, <<1, 10>> >>, << <<1, 1>>, <<1, 1>> >>, << <<10, 1>>, <<1, 1>> >>, << <<1, 1>>, <<10, 1>> >>},
+     kc \in CsvcConfigs,
      shr \in BOOLEAN}
 
 \* nu must be strictly feasible: nu n / 2 < min(#pos, #neg)
 NuFeasible(y, nu) == LET n == Len(y) IN
   /\ nu[1] * n < 2 * nu[2] * Npos(y)
   /\ nu[1] * n < 2 * nu[2] * Nneg(y)
+\* the two classes do not interleave (then the nu-SVC margin parameter r is positive)
+Separable(X, y) == \/ \A i, j \in DOMAIN y : (y[i] = 0 /\ y[j] = 1) => X[i][1] < X[j][1]
+                   \/ \A i, j \in DOMAIN y : (y[i] = 0 /\ y[j] = 1) => X[i][1] > X[j][1]
 NusvcSmall ==
   {Mk("nusvc", [i \in DOMAIN s |-> LX(s[i])], [i \in DOMAIN s |-> LY(s[i])], 1, kern, One, One, nu, One, One, shr, "f64", ~shr) :
      s \in {t \in UNION {Sorted(6, len) : len \in (MinSmall + 1)..(MaxSmall + 1)} : BothLabels(t)},
@@ -73,21 +84,24 @@ Xo == <<-1, 0, 2>>
 OneclassSmall ==
   {Mk("oneclass", [i \in DOMAIN s |-> <<Xo[s[i]]>>], [i \in DOMAIN s |-> 1], 1, kern, One, One, nu, One, One, shr, "f64", FALSE) :
      s \in UNION {Sorted(3, len) : len \in MinSmall..(MaxSmall + 1)},
-     kern \in {"lin", "poly2", "rbf2"}, nu \in {<<1, 4>>, <<1, 2>>, <<1, 1>>}, shr \in BOOLEAN}
+     kern \in (IF Lite THEN {"lin", "rbf2"} ELSE {"lin", "poly2", "rbf2"}), nu \in {<<1, 4>>, <<1, 2>>, <<1, 1>>}, shr \in BOOLEAN}
 
 (* -------------------------------------------- small regression sets       *)
 RX(l) == <<Xs3[((l - 1) % 3) + 1]>>
 RY(l) == IF (l - 1) \div 3 = 0 THEN -1 ELSE 1
+E1 == << <<1, 1>>, <<1, 10>> >>          \* <<C, epsilon>>
+E2 == << <<10, 1>>, <<1, 2>> >>
+E3 == << <<1, 10>>, <<1, 10>> >>
 EsvrSmall ==
-  {Mk("esvr", [i \in DOMAIN s |-> RX(s[i])], [i \in DOMAIN s |-> RY(s[i])], 1, kern, One, One, One, ce[1], ce[2], shr, "f64", FALSE) :
+  {Mk("esvr", [i \in DOMAIN s |-> RX(s[i])], [i \in DOMAIN s |-> RY(s[i])], 1, kc[1], One, One, One, kc[2][1], kc[2][2], shr, "f64", FALSE) :
      s \in UNION {Sorted(6, len) : len \in MinSmall..MaxSmall},
-     kern \in {"lin", "rbf2"},
-     ce \in {<< <<1, 1>>, <<1, 10>> >>, << <<10, 1>>, <<1, 2>> >>, << <<1, 10>>, <<1, 10>> >>},
+     kc \in (IF Lite THEN {<<"lin", E1>>, <<"lin", E2>>, <<"rbf2", E2>>, <<"rbf2", E3>>}
+             ELSE {<<k, ce>> : k \in {"lin", "rbf2"}, ce \in {E1, E2, E3}}),
      shr \in BOOLEAN}
 NusvrSmall ==
   {Mk("nusvr", [i \in DOMAIN s |-> RX(s[i])], [i \in DOMAIN s |-> RY(s[i])], 1, kern, One, One, nu, cc, One, shr, "f64", FALSE) :
      s \in UNION {Sorted(6, len) : len \in MinSmall..MaxSmall},
-     kern \in {"lin"}, nu \in {<<1, 4>>, <<1, 2>>}, cc \in {<<1, 1>>, <<10, 1>>}, shr \in BOOLEAN}
+     kern \in {"lin"}, nu \in {<<1, 4>>, <<1, 2>>}, cc \in (IF Lite THEN {<<1, 1>>} ELSE {<<1, 1>>, <<10, 1>>}), shr \in BOOLEAN}
 
 (* -------------------------------------------- medium 2-D sets             *)
 MedX(s, n) == [i \in 1..n |-> << ((s * 5 + i * 3 + ((i * i) % 11)) % 7) - 3, ((s * 3 + i * 5 + ((i * i * i) % 13)) % 7) - 3 >>]
@@ -116,7 +130,7 @@ NusvrMed ==
 (* -------------------------------------------- f32                         *)
 F32Cases ==
   {Mk("csvc", [i \in DOMAIN s |-> LX(s[i])], [i \in DOMAIN s |-> LY(s[i])], 1, kern, <<1, 1>>, <<1, 2>>, One, One, One, shr, "f32", ~shr) :
-     s \in {t \in SmallLabelled : BothLabels(t)}, kern \in {"lin", "rbf2"}, shr \in BOOLEAN}
+     s \in {t \in SmallLabelled : BothLabels(t)}, kern \in (IF Lite THEN {"lin"} ELSE {"lin", "rbf2"}), shr \in BOOLEAN}
   \cup
   {Mk("esvr", [i \in DOMAIN s |-> RX(s[i])], [i \in DOMAIN s |-> RY(s[i])], 1, "lin", One, One, One, <<1, 1>>, <<1, 10>>, shr, "f32", FALSE) :
      s \in UNION {Sorted(6, len) : len \in MinSmall..MaxSmall}, shr \in BOOLEAN}
@@ -126,7 +140,10 @@ F32Cases ==
 
 All ==
   (IF "csvc" \in Fams THEN CsvcSmall \cup CsvcMed ELSE {}) \cup
-  (IF "nusvc" \in Fams THEN {k \in NusvcSmall \cup NusvcMed : NuFeasible(k.inp.y, k.inp.nu)} ELSE {}) \cup
+  (IF "nusvc" \in Fams
+     THEN {k \in NusvcSmall : NuFeasible(k.inp.y, k.inp.nu) /\ Separable(k.inp.x, k.inp.y)}
+          \cup {k \in NusvcMed : NuFeasible(k.inp.y, k.inp.nu)}
+     ELSE {}) \cup
   (IF "oneclass" \in Fams THEN OneclassSmall \cup OneclassMed ELSE {}) \cup
   (IF "esvr" \in Fams THEN EsvrSmall \cup EsvrMed ELSE {}) \cup
   (IF "nusvr" \in Fams THEN NusvrSmall \cup NusvrMed ELSE {}) \cup
